@@ -455,9 +455,11 @@ func (s *shard) repair(ctx context.Context, id []byte, property *propertyv1.Prop
 
 	// if the lastest property in shard is bigger than the repaired property,
 	// then the repaired process should be stopped.
+	// With the same revision, the later delete time wins (a live copy has delete time 0),
+	// so a tombstone is never replaced by the live value it deleted.
 	if (olderProperties[len(olderProperties)-1].timestamp > property.Metadata.ModRevision) ||
 		olderProperties[len(olderProperties)-1].timestamp == property.Metadata.ModRevision &&
-			olderProperties[len(olderProperties)-1].deleteTime == deleteTime {
+			olderProperties[len(olderProperties)-1].deleteTime >= deleteTime {
 		return false, olderProperties[len(olderProperties)-1], nil
 	}
 
